@@ -52,7 +52,8 @@ TLogin == /\ IsEvent("Login") /\ Login(Rec.s)
 TReg == /\ IsEvent("Reg") /\ AddRegion(Rec.s, Rec.h)
         /\ Chk("Reg.state", ProjOK(Rec.proj)) /\ Chk("Reg.sent", Rec.sent = <<>>)
         /\ UNCHANGED <<tid, addr>>
-\* {"ev":"C","a":a,"src":{ip,port},"data":[..],"k":kind,"s":s,"sent":[{"via":a,"data":[..],"to":{ip,port}}..],"proj":{..}}
+\* label: the message name the driver used, i: index of the event in its trace (only quoted in failure names)
+\* {"ev":"C","a":a,"src":{ip,port},"data":[..],"k":kind,"s":s,"label":name,"sent":[{"via":a,"data":[..],"to":{ip,port}}..],"proj":{..}}
 TClient == /\ IsEvent("C")
            /\ LET r == SocksStrip(Rec.data)
                   h == IF r.ok /\ r.atyp = 1 THEN HostOf(r.addr, r.port) ELSE Unk
@@ -61,8 +62,8 @@ TClient == /\ IsEvent("C")
                  /\ Env("C.label/dom", (Rec.k = "dom") <=> (r.ok /\ r.atyp = 3))
                  /\ Env("C.label/kind", Rec.k \in CKinds)
                  /\ Client(Rec.a, h, Rec.k, Rec.s)
-                 /\ Chk("C.sent " \o Rec.k, SentOK(r.data))
-                 /\ Chk("C.state " \o Rec.k, ProjOK(Rec.proj))
+                 /\ Chk("C.sent " \o Rec.k \o " " \o Rec.label \o " " \o ToString(Rec.i), SentOK(r.data))
+                 /\ Chk("C.state " \o Rec.k \o " " \o Rec.label \o " " \o ToString(Rec.i), ProjOK(Rec.proj))
            /\ UNCHANGED <<tid, addr>>
 \* {"ev":"H","a":a,"src":{ip,port},"data":[..],"k":kind,"s":s,"sent":[..],"proj":{..}}
 THost == /\ IsEvent("H")
@@ -71,8 +72,8 @@ THost == /\ IsEvent("H")
          /\ Env("H.spoof comes from a foreign IP", Rec.k = "spoof" => Rec.src.ip # addr.clients[Rec.a].ip)
          /\ Env("H.spoof is a SOCKS request", Rec.k = "spoof" => SocksStrip(Rec.data).ok)
          /\ Host(Rec.a, HostOf(Rec.src.ip, Rec.src.port), Rec.k, Rec.s)
-         /\ Chk("H.sent " \o Rec.k, SentOK(Rec.data))
-         /\ Chk("H.state " \o Rec.k, ProjOK(Rec.proj))
+         /\ Chk("H.sent " \o Rec.k \o " " \o Rec.label \o " " \o ToString(Rec.i), SentOK(Rec.data))
+         /\ Chk("H.state " \o Rec.k \o " " \o Rec.label \o " " \o ToString(Rec.i), ProjOK(Rec.proj))
          /\ UNCHANGED <<tid, addr>>
 TNext == TReset \/ TCfg \/ TLogin \/ TReg \/ TClient \/ THost
 TraceSpec == TInit /\ [][TNext]_tvars
